@@ -2,7 +2,7 @@
 send / write / read / close paths, the dispatch masks."""
 import re
 
-from ..extract import (HEADER, ExtractError, Tr, ast_dump, body_of, find_ifs, if_cond, kids, locate_if, mentions,
+from ..extract import (HEADER, ExtractError, Tr, ast_dump, body_of, find_ifs, if_cond, kids, locate_if, mentions, functions,
                        prop_def, strip, the_function, unparen, walk)
 
 NAME = "Conn"
@@ -75,15 +75,93 @@ def generate():
     guard(sil, "sendEnablesWriting", [("isWriting", "Bool")], {"channel_.isWriting()": "isWriting"},
           "`sendInLoop`: enable write interest", cond=if_cond(ifs[-1]))
 
+
+    def cas_call(n):
+        """(`state_.compare_exchange_*`, first-argument variable name, new-state enumerator) or None"""
+        n = strip(n)
+        if n.get("kind") != "CXXMemberCallExpr" or not kids(n):
+            return None
+        callee = strip(kids(n)[0])
+        if callee.get("kind") != "MemberExpr" or callee.get("name") not in ("compare_exchange_strong", "compare_exchange_weak"):
+            return None
+        if not mentions(callee, "state_"):
+            return None
+        args = kids(n)[1:]
+        if len(args) < 2:
+            raise ExtractError("compare_exchange on state_: unexpected arguments")
+        a0 = [x for x in walk(args[0]) if x.get("kind") == "DeclRefExpr"]
+        a1 = [x for x in walk(args[1]) if x.get("kind") == "DeclRefExpr" and x.get("referencedDecl", {}).get("kind") == "EnumConstantDecl"]
+        if len(a0) != 1 or len(a1) != 1:
+            raise ExtractError("compare_exchange on state_: cannot read the expected/desired arguments")
+        return a0[0]["referencedDecl"]["name"], a1[0]["referencedDecl"]["name"]
+
+    def state_gate(fn, name, doc):
+        """the test that lets `shutdown()` / `forceClose()` / `forceCloseWithDelay()` proceed, in any of the forms
+          if (state_ == A [|| state_ == B]) { setState(kDisconnecting); … }           (test, then store)
+          StateE e = A; if (state_.compare_exchange_strong(e, kDisconnecting)) { … }   (one atomic step)
+          if (helper()) { … }  with  helper: s = state_; while (s == A || s == B) if (state_.compare_exchange_weak(s, kDisconnecting)) return true; return false;
+        translated to the set of states in which the call is accepted; the new state must be kDisconnecting (the
+        model writes it).  Also says whether test and store are one atomic step."""
+        ifs = find_ifs(fn)
+        for i in ifs:
+            c = if_cond(i)
+            cas = cas_call(c)
+            if cas is not None:
+                var, new = cas
+                vd = [x for x in walk(body_of(fn)) if x.get("kind") == "VarDecl" and x.get("name") == var]
+                if len(vd) != 1:
+                    raise ExtractError("%s: cannot find the declaration of `%s`" % (name, var))
+                init = [x for x in walk(vd[0]) if x.get("kind") == "DeclRefExpr" and x.get("referencedDecl", {}).get("kind") == "EnumConstantDecl"]
+                if len(init) != 1:
+                    raise ExtractError("%s: `%s` is not initialised with one state" % (name, var))
+                if new != "kDisconnecting":
+                    raise ExtractError("%s: the new state is %s, the model writes kDisconnecting" % (name, new))
+                out.append(prop_def(name, [ST], "st = StateE.%s" % init[0]["referencedDecl"]["name"], doc + " (compare-and-swap)"))
+                return True
+            cs = strip(c)
+            if cs.get("kind") == "CXXMemberCallExpr" and kids(cs) and strip(kids(cs)[0]).get("kind") == "MemberExpr" \
+                    and len(kids(cs)) == 1 and not mentions(cs, "state_"):
+                hname = strip(kids(cs)[0]).get("name")
+                helpers = functions(docs, hname)
+                helpers = [h for h in helpers if body_of(h)]
+                if len(helpers) != 1:
+                    continue
+                h = helpers[0]
+                whiles = [x for x in walk(body_of(h)) if x.get("kind") == "WhileStmt"]
+                if len(whiles) != 1:
+                    continue
+                wcond, wbody = kids(whiles[0])[0], kids(whiles[0])[-1]
+                inner = [cas_call(if_cond(j)) for j in find_ifs(h) if cas_call(if_cond(j)) is not None]
+                if len(inner) != 1:
+                    raise ExtractError("%s: helper %s has no single compare_exchange on state_" % (name, hname))
+                var, new = inner[0]
+                if new != "kDisconnecting":
+                    raise ExtractError("%s: the new state is %s, the model writes kDisconnecting" % (name, new))
+                vd = [x for x in walk(body_of(h)) if x.get("kind") == "VarDecl" and x.get("name") == var]
+                if len(vd) != 1 or not mentions(vd[0], "state_"):
+                    raise ExtractError("%s: helper %s does not start from the current state" % (name, hname))
+                rets = [x for x in walk(body_of(h)) if x.get("kind") == "ReturnStmt"]
+                vals = [[y.get("value") for y in walk(r) if y.get("kind") == "CXXBoolLiteralExpr"] for r in rets]
+                if vals != [[True], [False]]:
+                    raise ExtractError("%s: helper %s: expected `return true` inside the loop and `return false` after it" % (name, hname))
+                t = Tr({var: "st"}, consts)
+                out.append(prop_def(name, [ST], unparen(t.expr(wcond)), doc + " (compare-and-swap loop in `%s`)" % hname))
+                return True
+        guard(fn, name, [ST], {"state_": "st"}, doc, "state_")
+        return False
+
     sh = the_function(docs, "shutdown")
-    guard(sh, "shutdownAccepts", [ST], {"state_": "st"}, "`shutdown()`: the state test", "state_")
+    atomic = [state_gate(sh, "shutdownAccepts", "`shutdown()`: the state test")]
     shl = the_function(docs, "shutdownInLoop")
     guard(shl, "shutdownNow", [("isWriting", "Bool")], {"channel_.isWriting()": "isWriting"},
           "`shutdownInLoop`: half-close only when not writing", "channel_")
     fc = the_function(docs, "forceClose")
-    guard(fc, "forceCloseAccepts", [ST], {"state_": "st"}, "`forceClose()`: the state test", "state_")
+    atomic.append(state_gate(fc, "forceCloseAccepts", "`forceClose()`: the state test"))
     fcd = the_function(docs, "forceCloseWithDelay")
-    guard(fcd, "forceCloseDelayAccepts", [ST], {"state_": "st"}, "`forceCloseWithDelay()`: the state test", "state_")
+    atomic.append(state_gate(fcd, "forceCloseDelayAccepts", "`forceCloseWithDelay()`: the state test"))
+    out.append("/-- `shutdown()`, `forceClose()`, `forceCloseWithDelay()` test and set the state word in one atomic step\n"
+               "(a separate test and store lets a close on the loop thread slip in between; the store then revives the connection) -/\n"
+               "def gateAtomic : Bool := %s\n" % ("true" if all(atomic) else "false"))
     fcl = the_function(docs, "forceCloseInLoop")
     guard(fcl, "forceCloseInLoopActs", [ST], {"state_": "st"}, "`forceCloseInLoop()`: the state test", "state_")
     srl = the_function(docs, "startReadInLoop")
